@@ -53,6 +53,12 @@ func New[H Hash](options ...func(config *Config[H])) (*DBFT[H], error) {
 func (d *DBFT[H]) addTransaction(tx Transaction[H]) {
 	d.Transactions[tx.Hash()] = tx
 	if d.hasAllTransactions() {
+		// PreBlock can be constructed now, check the PreCommits that were
+		// received earlier (WatchOnly nodes collect PreCommits too).
+		if d.isAntiMEVExtensionEnabled() {
+			d.verifyPreCommitPayloadsAgainstPreBlock()
+		}
+
 		if d.IsPrimary() || d.Context.WatchOnly() {
 			return
 		}
@@ -60,8 +66,6 @@ func (d *DBFT[H]) addTransaction(tx Transaction[H]) {
 		if !d.createAndCheckBlock() {
 			return
 		}
-
-		d.verifyPreCommitPayloadsAgainstPreBlock()
 
 		d.extendTimer(2)
 		d.sendPrepareResponse()
@@ -355,6 +359,10 @@ func (d *DBFT[H]) onPrepareRequest(msg ConsensusPayload[H]) {
 	d.processMissingTx()
 	d.updateExistingPayloads(msg)
 	d.PreparationPayloads[msg.ValidatorIndex()] = msg
+	if d.isAntiMEVExtensionEnabled() {
+		// PreBlock can be constructed only now, when the request is stored.
+		d.verifyPreCommitPayloadsAgainstPreBlock()
+	}
 
 	if !d.hasAllTransactions() || !d.createAndCheckBlock() || d.Context.WatchOnly() {
 		return
